@@ -44,6 +44,38 @@ CLAIMED = {
                 design_ref="DESIGN.md §3 C10",
                 note="Trusted: TLC, harness projection. ELF-load and brk area creation are exercised by C15/C13's checks, not here.",
                 technique="TLA+ spec + TLC model checking (NoOverlap invariant); TLC trace validation of edge replays and random allocator histories"),
+    "C11": dict(category="model_checking",
+                text="TLC explores Exec.tla over every abstract program of N slots (plain/jmp/taken and untaken jcc/call/ret/fault), every "
+                     "instruction limit and every interleaving of step/execute/extra steps, checking count = successful steps <= limit, the exact "
+                     "finish condition, 'a gated step fails and changes nothing' and the execute fixed point on every edge. Every (program, limit) "
+                     "of the model is concretised to real bytes and replayed; seeded random programs over ~25 instruction templates (faulting, "
+                     "undecodable, unsupported, indirect, entry point inside the code) run three ways (step loop / execute compared with it / extra "
+                     "steps). TLC validates every recorded step against the same step relation, annotated from the generator's program table and "
+                     "the logged pre-state.",
+                design_ref="DESIGN.md §3 C11",
+                note="Trusted: TLC, the Python program assembler/annotator (independent of ax's decoder). RIP after a failing step is unconstrained.",
+                technique="TLA+ spec + TLC model checking; TLC trace validation of model-program replays and random programs run three ways"),
+    "C12": dict(category="model_checking",
+                text="TLC explores every sequence of up to 3-4 hooks from a menu (before/after x own/foreign mnemonic x unhandled/handled/error x "
+                     "stop) and checks legal chains, before-before-after ordering and no foreign hooks on every edge. Every model configuration is "
+                     "replayed with instrumented native hooks that log (id, phase, RIP, count), write mark registers and try to register hooks and "
+                     "syscall handlers from inside; random configurations over random programs add registrations between steps and after failed "
+                     "runs. TLC validates each step's hook log against the protocol (chains, RIP already advanced, before-effect-after, stop ends "
+                     "the run cleanly, failing hook fails the step, modifications persist, running flag clear, registration refused only inside).",
+                design_ref="DESIGN.md §3 C12",
+                note="Native Rust hooks only (the JS path exists only on wasm32). Order among hooks of one phase not prescribed; after a before-hook "
+                     "stop it is left open whether the instruction/after hooks still run; a stop() when execution is already finished may or may not "
+                     "end the chain.",
+                technique="TLA+ spec + TLC model checking of hook configurations; TLC trace validation of instrumented-hook logs"),
+    "C18": dict(category="model_checking",
+                text="TLC checks on the Exec model that the incrementally built log equals the run-length compression of the flow history, that "
+                     "levels follow calls/returns and the call stack equals the unreturned calls. Model programs and seeded random programs of "
+                     "jumps/jcc/calls/returns (direct/indirect, balanced or with returns outnumbering calls on a hand-made stack, faulting CALL/RET, "
+                     "runs ending in errors) are executed; after every step TLC compares the structured trace and call stack with Compress(flow) and "
+                     "CallStack(flow) built by an independent tracer, and trace()/call_stack()/to_string() must succeed without changing state.",
+                design_ref="DESIGN.md §3 C18",
+                note="Rendered text is not compared with a reference (totality is what the property demands; the structured log is compared).",
+                technique="TLA+ spec + TLC model checking; TLC trace validation against an independent flow history"),
 }
 NOT_YET = {}
 
